@@ -17,7 +17,7 @@ Theorem C01_cbor : forall t, wf_tree t = true -> SF.Cbor.RoundtripProofs.tree_sm
      forall cs, concat cs = bs ->
        exists evs t', run_chunks None cs = Ok (evs, nilE) /\ stream_tree evs = Some t' /\
                       wf_tree t' = true /\ cv (value_of t') = cv (value_of t)).
-Proof. exact ComposeProofs.C01_cbor. Qed.
+Proof. exact SF.Cbor.ComposeProofs.C01_cbor. Qed.
 Print Assumptions C01_cbor.
 
 (* Streams of several documents through one encoder and one parser. *)
@@ -26,5 +26,68 @@ Theorem C01_cbor_stream : forall ts, forallb wf_tree ts = true -> forallb SF.Cbo
     ((zlen bs <=? MaxInt64) = true -> forall cs, concat cs = bs ->
        exists ts', run_chunks None cs = Ok (flat_map flatten ts', nilE) /\ forallb wf_tree ts' = true /\
                    map (fun t => cv (value_of t)) ts' = map (fun t => cv (value_of t)) ts).
-Proof. exact ComposeProofs.C01_cbor_stream. Qed.
+Proof. exact SF.Cbor.ComposeProofs.C01_cbor_stream. Qed.
 Print Assumptions C01_cbor_stream.
+
+(* UBJSON.  For every well-formed tree the encoder model's output is accepted by the parser
+   model - Parse, and every chunking that returns - with a well-formed stream whose value is
+   [ubj_img t]: the stream's value with the representation change the property allows
+   (integers above MaxInt64 as decimal strings; Ubjson/Img.v also carries the recorded
+   finding F1 for typed unsigned containers).  Side conditions on the OUTPUT: shorter than
+   2^63 bytes, and the resource guard of C06/C03 (finding F2); the guard is not derivable from
+   the tree because it also scans string payloads (SF.Core.ComposeProofs.guard_not_derivable). *)
+From SF Require Ubjson.Spec Ubjson.Enc Ubjson.Img Ubjson.Parse Ubjson.RoundtripProofs Ubjson.ConformanceProofs Core.ComposeProofs.
+Theorem C01_ubj : forall t, wf_tree t = true -> SF.Ubjson.RoundtripProofs.tree_small t = true ->
+  exists bs, SF.Ubjson.Enc.ubj_encode (flatten t) = Some bs /\ all_bytes bs = true /\
+    ((zlen bs <=? MaxInt64) = true -> SF.Ubjson.ConformanceProofs.no_huge_zero_typed bs = true ->
+     exists evs t' p, SF.Ubjson.Parse.urun_parse None bs = Ok (evs, SF.Ubjson.Parse.unilE, p) /\ stream_tree evs = Some t' /\
+       wf_tree t' = true /\ cv (value_of t') = SF.Ubjson.Img.ubj_img t /\
+       forall cs r, concat cs = bs -> SF.Ubjson.Parse.urun_chunks None cs = Ok r -> fst r = (evs, SF.Ubjson.Parse.unilE)).
+Proof. exact SF.Core.ComposeProofs.C01_ubj. Qed.
+Print Assumptions C01_ubj.
+
+(* JSON.  For every well-formed tree with finite floats (or ignoreInvalidFloat), under every
+   option setting, the encoder model's text is accepted by the parser model - Parse and EVERY
+   chunking - with a well-formed stream whose value is [json_img cfg t] (strings sanitized to
+   valid UTF-8, integers exact, non-finite floats null, finite floats as strconv round-trips
+   them).  The hypotheses speak about strconv only (the same as C07_json and C04_accept). *)
+From SF Require Json.Spec Json.Enc Json.Parse Json.EncProofs Json.RoundtripProofs.
+Section C01Json.
+  Import SF.Json.Spec SF.Json.Enc SF.Json.Parse.
+  Variable ffmt : Z -> Z -> bytes.
+  Variable pf : bytes -> option Z.
+  Variable fimg : Z -> Z -> cnum.
+  Variable fbits_r : Z -> Z -> Z.
+  Hypothesis ffmt_number : forall w bits, w = 32 \/ w = 64 -> in_u w bits = true -> nonfinite w bits = false ->
+     exists isint, json_number (ffmt w bits) = NumOk (ffmt w bits) isint [] /\
+                   json_num_value pf (ffmt w bits) isint = Some (fimg w bits).
+  Hypothesis ffmt_chars : forall w bits, w = 32 \/ w = 64 -> in_u w bits = true -> nonfinite w bits = false ->
+     Forall (fun c => In c SF.Json.EncProofs.fchars) (ffmt w bits).
+  Hypothesis pf_radix : forall w bits, w = 32 \/ w = 64 -> in_u w bits = true -> nonfinite w bits = false ->
+     snd (radix_scan (ffmt w bits) 0) = true ->
+     pf (SF.Json.RoundtripProofs.radix_patch (ffmt w bits)) = Some (fbits_r w bits).
+  Hypothesis pf_ok : forall l z, pf l = Some z -> in_u 64 z = true.
+
+  Theorem C01_json : forall cfg t, wf_tree t = true ->
+    (ignore_invalid cfg = true \/ SF.Json.EncProofs.tree_finite t = true) ->
+    exists e' evs t' p,
+      json_run cfg ffmt (jenc0 None) (flatten t) 0 = JRun e' None /\
+      all_bytes (w_bytes (je_w e')) = true /\
+      jrun_parse pf None (w_bytes (je_w e')) = Ok (evs, jpnil, p) /\
+      stream_tree evs = Some t' /\ wf_tree t' = true /\
+      cv (value_of t') = SF.Json.RoundtripProofs.json_img ffmt fimg (fun w bits => CF64 (fbits_r w bits)) cfg t /\
+      forall cs, concat cs = w_bytes (je_w e') -> exists p', jrun_chunks pf None cs = Ok (evs, jpnil, p').
+  Proof. exact (SF.Core.ComposeProofs.C01_json ffmt pf fimg fbits_r ffmt_number ffmt_chars pf_radix pf_ok). Qed.
+End C01Json.
+Print Assumptions C01_json.
+
+(* non-vacuity: the four strconv hypotheses are satisfiable together (toy oracles), and a
+   pipeline UBJSON -> CBOR -> JSON -> UBJSON with chunked parsing computes as stated *)
+Theorem C01_json_hypotheses_satisfiable : forall cfg t, wf_tree t = true ->
+  (SF.Json.Enc.ignore_invalid cfg = true \/ SF.Json.EncProofs.tree_finite t = true) ->
+  exists e', SF.Json.Enc.json_run cfg SF.Core.ComposeProofs.ComposeExamples.toy_ffmt (SF.Json.Enc.jenc0 None) (flatten t) 0 = SF.Json.Enc.JRun e' None.
+Proof.
+  intros cfg t H1 H2. destruct (SF.Core.ComposeProofs.ComposeExamples.C01_json_toy cfg t H1 H2) as (e' & _ & _ & _ & H & _).
+  exists e'. exact H.
+Qed.
+Print Assumptions C01_json_hypotheses_satisfiable.
